@@ -43,7 +43,7 @@ ASSUMPTIONS = [
 ]
 TIERS = {
     "quick": {"runs": 80, "chunk": 1, "wall": 110, "chunk_timeout": 500, "selftest": 4},
-    "thorough": {"runs": 1800, "chunk": 2, "wall": 800, "chunk_timeout": 900, "selftest": 8},
+    "thorough": {"runs": 700, "chunk": 1, "wall": 800, "chunk_timeout": 900, "selftest": 8},
 }
 EXPECTED_PROBES = {t: ["torn_root_inside_token", "torn_module", "torn_to_empty", "garble_float_id", "garble_string_enum_value",
                        "garble_unknown_param", "garble_param_arity", "garble_empty_enum", "garble_array_size",
